@@ -764,11 +764,15 @@ func stackMultiValues(c *mon.Ctx, r *mon.Rand, kinds map[string]bool) {
 	var plain []tally.StatsReporter
 	var cach []tally.CachedStatsReporter
 	for i := range recs {
+		// what a child says about its capabilities does not change what it is sent
+		caps := mon.Caps(!r.Chance(1, 3), r.Bool())
 		if cached {
 			cr := mon.NewCachedRec(true)
+			cr.Caps = caps
 			recs[i], cach = cr.Recorder, append(cach, cr)
 		} else {
 			pr := mon.NewPlainRec(true)
+			pr.Caps = caps
 			recs[i], plain = pr.Recorder, append(plain, pr)
 		}
 	}
